@@ -31,9 +31,12 @@ def build(tier):
     obs.append(Obligation(name="makegateway_same_spec_object_twice", module_src=src, fn="h", timeout=t, meta={"live": 0, "kind": 0}))
     # Group.terminate's own loop (exit order of proxied members, rounds, emptiness) with safe_terminate replaced by a recorder
     for nw in ((1, 2, 3) if thorough else (1, 2)):
-        params = ", ".join(f"v{k}: bool" for k in range(nw)) + ", tg: bool"
-        src = e1.make_module(PRELUDE, "h", params, [], f"return group_terminate_ok([{', '.join(f'v{k}' for k in range(nw))}], tg)\n")
+        params = ", ".join(f"v{k}: bool" for k in range(nw)) + ", tg: bool, pre: int"
+        src = e1.make_module(PRELUDE, "h", params, [f"-1 <= pre <= {nw - 1}"], f"return group_terminate_ok([{', '.join(f'v{k}' for k in range(nw))}], tg, pre)\n")
         obs.append(Obligation(name=f"terminate_loop_{nw}workers", module_src=src, fn="h", timeout=t, meta={"live": nw, "kind": "terminate"}))
+    # the fallback for a member that does not come down: Popen2IOMaster.kill() must end the process whatever it does with catchable signals
+    src = e1.make_module(PRELUDE, "h", "yields_to_term: bool, already_gone: bool", [], "return member_kill_is_unconditional(yields_to_term, already_gone)\n")
+    obs.append(Obligation(name="member_kill_is_unconditional", module_src=src, fn="h", timeout=t, meta={"live": 1, "kind": "kill"}))
     # an automatic id that is already taken by an explicitly named live gateway ("gw0")
     src = e1.make_module(PRELUDE, "h", "k: int", ["0 <= k <= 2"], "return makegateway_leaves_no_process(['gw0', 'gw1'][:k], 'x', False, 0)\n")
     obs.append(Obligation(name="makegateway_autoid_taken", module_src=src, fn="h", timeout=t, meta={"live": "gw0/gw1", "kind": 0}))
